@@ -124,6 +124,10 @@ def run_pool(tasks, nproc, log, stop_flag, on_result):
                 continue
             if worker is None:
                 worker = Worker(log)
+            elif task.get('attempt', 1) > 1:
+                # retries run in a fresh process: an UNKNOWN / PRE_UNSAT verdict must not depend on what the worker ran before
+                worker.kill()
+                worker.start()
             hard = task.get('cond_timeout', 60) * 2.5 + 90
             res = worker.run(task, hard)
             with lock:
